@@ -50,6 +50,8 @@ type Method struct {
 	Extras   []Param  `json:"extras,omitempty"`
 	HasErr   bool     `json:"has_err,omitempty"`
 	ErrName  string   `json:"err_name,omitempty"`
+	// ErrType spells the error result ("" = "error"); e.g. the name of an alias `type Failure = error`.
+	ErrType string `json:"err_type,omitempty"`
 	// Trailing is a trailing comment on the method line.
 	Trailing string `json:"trailing,omitempty"`
 	// ErrSites lists the trace sites of error-capable callbacks reachable from this method;
@@ -103,7 +105,11 @@ func (m *Method) Sig() string {
 			}
 			sb.WriteString(en + " ")
 		}
-		sb.WriteString("error")
+		if m.ErrType != "" {
+			sb.WriteString(m.ErrType)
+		} else {
+			sb.WriteString("error")
+		}
 	}
 	sb.WriteString(")")
 	return sb.String()
